@@ -3,12 +3,14 @@
   line on stdout.  Imports only core-only modules (Lib, Model, Driver) so that it links.
 -/
 import FwdVerif.Driver.C16
+import FwdVerif.Driver.Req
 
 open FwdVerif
 
 def dispatch (line : String) : String :=
   match (line.trimAscii.toString).splitOn " " with
   | "C16" :: rest => C16.handle rest
+  | "REQ" :: rest => Req.handle rest
   | ["ping"] => "pong"
   | _ => "bad-op"
 
